@@ -169,7 +169,7 @@ func genParsedPair(t *rapid.T) ParsedPair {
 
 var specC01Parsed = Register(&Spec[ParsedPair]{
 	Prop: "C01", Name: "parsed",
-	Rule: "pairs of Policy-grammar version strings (optional epoch with leading zeros, ':' in upstream only with epoch, '-' only with revision), the second mostly a grammar-preserving neighbour; both parsed with version.Parse, then Compare (both ways round) must order them as the reference comparator orders the renderer's parts. A quarter of the first operands are read with UnmarshalControl / UnmarshalText into a variable that read another text before (the same text behind \"0:\", without its epoch or revision, with \"-9\" behind it, the other operand, an unrelated version); an eighth carry an epoch no Version can hold (just above the platform's uint, a multiple of 2^32 / 2^64 plus a little, 11..26 digits) against a second operand whose epoch lies anywhere in the uint range: Parse refuses those, and if it takes one the written epoch is above every other. Non-trivial: as C01/model.",
+	Rule: "pairs of Policy-grammar version strings (optional epoch with leading zeros, ':' in upstream only with epoch, '-' only with revision), the second mostly a grammar-preserving neighbour; both parsed with version.Parse, then Compare (both ways round) must order them as the reference comparator orders the renderer's parts. A quarter of the first operands are read with UnmarshalControl / UnmarshalText into a variable that read another text before (UnmarshalText's byte slice is written over right after the call; the earlier text is the same text behind \"0:\", without its epoch or revision, with \"-9\" behind it, the other operand, an unrelated version); an eighth carry an epoch no Version can hold (just above the platform's uint, a multiple of 2^32 / 2^64 plus a little, 11..26 digits) against a second operand whose epoch lies anywhere in the uint range: Parse refuses those, and if it takes one the written epoch is above every other. Non-trivial: as C01/model.",
 	Check: func(p ParsedPair, r *Recorder) error {
 		pa, pb := wfParts(p.A), wfParts(p.B)
 		cl := classifyPair(VerPair{pa, pb})
@@ -196,7 +196,13 @@ var specC01Parsed = Register(&Spec[ParsedPair]{
 				if a.UnmarshalText([]byte(p.Prev)) != nil {
 					return nil
 				}
-				err = a.UnmarshalText([]byte(p.A.Text))
+				// (the caller's buffer is the caller's: it is used for something else right away, as a
+				// scanner's or a decoder's buffer is)
+				buf := []byte(p.A.Text)
+				err = a.UnmarshalText(buf)
+				for i := range buf {
+					buf[i] = "9:~z-0"[i%6]
+				}
 			}
 		}
 		if err != nil {
